@@ -302,11 +302,121 @@ func (s *scenario) Exec(run func(threads ...func()) *verifsched.Exec) (out e3.Ou
 	return out
 }
 
+// nestScenario: one goroutine, Depth requests in flight at once: the handler
+// of request d serves request d+1 through the same wrapped handler before it
+// finishes.  More pooled objects are outstanding than any fixed-size chunk or
+// free list holds.
+type nestScenario struct {
+	Depth int    `json:"depth"`
+	Kind  string `json:"kind"`
+}
+
+func (s *nestScenario) Desc() any     { return s }
+func (s *nestScenario) Class() string { return "logmw-nested" }
+
+func (s *nestScenario) Exec(run func(threads ...func()) *verifsched.Exec) (out e3.Outcome) {
+	var logs []logRec
+	logger := slog.New(&recHandler{sink: &logs})
+	mw := httputil.NewLogMiddleware(logger, slog.LevelInfo)
+	var viols []e3.Viol
+	recs := make([]*clientRW, s.Depth)
+	var h http.Handler
+	newReq := func(d int) *http.Request {
+		id := fmt.Sprintf("n%03d", d)
+		req := httptest.NewRequest("M"+id, "http://host-"+id+"/p/"+id+"?q="+id, strings.NewReader("body-"+id))
+		req.Host = "host-" + id
+		req.Header.Set("X-Id", id)
+		req.RemoteAddr = "raddr-" + id
+		req.RequestURI = "/p/" + id + "?q=" + id
+
+		return req.WithContext(context.WithValue(req.Context(), ctxKey{}, id))
+	}
+
+	inner := http.HandlerFunc(func(w http.ResponseWriter, r *http.Request) {
+		id, _ := r.Context().Value(ctxKey{}).(string)
+		var d int
+		fmt.Sscanf(id, "n%03d", &d)
+		check := func(when string) {
+			if r.Method != "M"+id || r.URL.Path != "/p/"+id || r.Host != "host-"+id || r.Header.Get("X-Id") != id || r.RemoteAddr != "raddr-"+id {
+				viols = append(viols, e3.Viol{Kind: "foreign-request",
+					What: fmt.Sprintf("nested request %s of %d, %s: the handler observes method=%q url=%q host=%q header=%q raddr=%q", id, s.Depth, when, r.Method, r.URL, r.Host, r.Header.Get("X-Id"), r.RemoteAddr)})
+			}
+		}
+
+		check("on entry")
+		if l, ok := slogutil.LoggerFromContext(r.Context()); ok {
+			l.Info("inner", "id", id)
+		}
+
+		if d+1 < s.Depth {
+			recs[d+1] = &clientRW{hdr: http.Header{}}
+			h.ServeHTTP(recs[d+1], newReq(d+1))
+		}
+
+		check("after the nested request returned")
+		w.WriteHeader(200 + d)
+		_, _ = io.WriteString(w, "resp-"+id)
+	})
+	h = mw.Wrap(inner)
+
+	ex := run(func() {
+		recs[0] = &clientRW{hdr: http.Header{}}
+		h.ServeHTTP(recs[0], newReq(0))
+	})
+	out.History = fmt.Sprintf("depth %d, %d records", s.Depth, len(logs))
+	out.Viols = viols
+	if len(ex.Panics) > 0 || ex.Livelock || ex.Deadlock {
+		return out
+	}
+
+	for d := 0; d < s.Depth; d++ {
+		id := fmt.Sprintf("n%03d", d)
+		if recs[d] == nil || recs[d].finalCode() != 200+d || recs[d].body.String() != "resp-"+id {
+			out.Viols = append(out.Viols, e3.Viol{Kind: "client-response", What: fmt.Sprintf("nested request %s of %d: client received %+v", id, s.Depth, recs[d])})
+
+			continue
+		}
+
+		uri := "/p/" + id + "?q=" + id
+		var msgs []string
+		for _, lr := range logs {
+			if lr.attrs["request_uri"] != uri {
+				continue
+			}
+
+			msgs = append(msgs, lr.msg)
+			if lr.attrs["host"] != "host-"+id || lr.attrs["method"] != "M"+id || lr.attrs["raddr"] != "raddr-"+id ||
+				(lr.msg == "inner" && lr.attrs["id"] != id) || (lr.msg == "finished" && lr.attrs["code"] != fmt.Sprint(200+d)) {
+				out.Viols = append(out.Viols, e3.Viol{Kind: "log-attributes", What: fmt.Sprintf("nested request %s of %d: record %q carries %v", id, s.Depth, lr.msg, lr.attrs)})
+			}
+		}
+
+		if strings.Join(msgs, ",") != "started,inner,finished" {
+			out.Viols = append(out.Viols, e3.Viol{Kind: "log-records", What: fmt.Sprintf("nested request %s of %d: records %v", id, s.Depth, msgs)})
+		}
+	}
+
+	return out
+}
+
 func descOf(s *scenario, id string) reqDesc {
 	return s.Progs[int(id[0]-'0')][int(id[1]-'0')]
 }
 
 func build(desc json.RawMessage) e3.Scenario {
+	var k struct {
+		Kind string `json:"kind"`
+	}
+	_ = json.Unmarshal(desc, &k)
+	if k.Kind == "nest" {
+		ns := &nestScenario{}
+		if err := json.Unmarshal(desc, ns); err != nil {
+			runlib.EngineErrorf("scenario: %v", err)
+		}
+
+		return ns
+	}
+
 	sc := &scenario{}
 	if err := json.Unmarshal(desc, sc); err != nil {
 		runlib.EngineErrorf("scenario: %v", err)
@@ -327,7 +437,8 @@ func main() {
 		full := e3.Limits{Exhaust: true, MaxBound: runlib.Pick(c, 2, 4), MaxExecs: runlib.Pick(c, int64(300_000), int64(6_000_000))}
 		bounded := e3.Limits{MaxBound: runlib.Pick(c, 2, 3), MaxExecs: runlib.Pick(c, int64(100_000), int64(3_000_000))}
 
-		kinds := []reqDesc{{Code: 0}, {Code: 0, Body: true}, {Code: 404, Body: true}, {Code: 201}, {Code: 404, Early: 103}}
+		kinds := []reqDesc{{Code: 0}, {Code: 0, Body: true}, {Code: 404, Body: true}, {Code: 201}, {Code: 404, Early: 103},
+			{Code: 1 << 31}, {Code: 1<<32 + 404, Body: true}}
 		type item struct {
 			sc  *scenario
 			lim e3.Limits
@@ -335,9 +446,10 @@ func main() {
 
 		var items []item
 		for _, retain := range []bool{false, true} {
-			// 2 threads x 1 request.
-			for a := range kinds {
-				for b := a; b < len(kinds); b++ {
+			// 2 threads x 1 request (the huge codes only matter sequentially).
+			base := kinds[:5]
+			for a := range base {
+				for b := a; b < len(base); b++ {
 					items = append(items, item{&scenario{Retain: retain, Progs: [][]reqDesc{{kinds[a]}, {kinds[b]}}}, full})
 				}
 			}
@@ -351,10 +463,10 @@ func main() {
 			}
 
 			// 2 x 2 and 3 x 1: preemption bounded.
-			for a := range kinds {
-				for b := range kinds {
+			for a := range base {
+				for b := range base {
 					items = append(items, item{&scenario{Retain: retain, Progs: [][]reqDesc{{kinds[a], kinds[0]}, {kinds[b], kinds[2]}}}, bounded})
-					items = append(items, item{&scenario{Retain: retain, Progs: [][]reqDesc{{kinds[a]}, {kinds[b]}, {kinds[(a+b)%len(kinds)]}}}, bounded})
+					items = append(items, item{&scenario{Retain: retain, Progs: [][]reqDesc{{kinds[a]}, {kinds[b]}, {kinds[(a+b)%len(base)]}}}, bounded})
 				}
 			}
 		}
@@ -362,6 +474,12 @@ func main() {
 		for i, it := range items {
 			if c.Mine(int64(i)) {
 				e3.Explore(c, it.sc, it.lim)
+			}
+		}
+
+		for i, depth := range []int{2, 5, 15, 16, 17, 18, 31, 32, 33, 34, 63, 64, 65, 66, 129} {
+			if c.Mine(int64(i)) {
+				e3.Explore(c, &nestScenario{Kind: "nest", Depth: depth}, e3.Limits{MaxBound: 0, MaxExecs: 1000})
 			}
 		}
 	})
